@@ -13,6 +13,7 @@ C05 driver: replays a harness trace.
 -/
 import LndModel.Prelude.Lines
 import LndModel.C05.Model
+import LndModel.C05.Persist
 import LndModel.C04.Parse
 
 open LndModel LndModel.Lines LndModel.C05 LndModel.C04.Script LndModel.C04.Parse
@@ -50,6 +51,14 @@ structure St where
   dustHtlcs : Nat := 0
   templates : Nat := 0
   samples : Nat := 0
+  spendsReload : Nat := 0
+  reloadProbes : Nat := 0
+  persistOps : Nat := 0
+  descCompared : Nat := 0
+  signedCompared : Nat := 0
+  wtypeCompared : Nat := 0
+  courtCases : Nat := 0
+  keyPathChecked : Nat := 0
 
 def mismatch (s : St) (detail : String) : IO St := do
   IO.println s!"MISMATCH case={s.caseId} line={s.lines} {detail}"
@@ -68,6 +77,69 @@ def spendOf (k : String) : Option Spend :=
   | "htlcTimeout" => some .htlcTimeout | "htlcClaim" => some .htlcClaim
   | "anchor" => some .anchor | _ => none
 
+/-- the descriptor fields printed with prefix `p` (`f.`, `r.`, `s.`) -/
+def parseDesc (ws : List String) (p : String) : SignDesc :=
+  let k := kvS ws (p ++ "key")
+  { fam := kvN ws (p ++ "fam"), idx := kvN ws (p ++ "idx"),
+    key := if k == "nokey" then none else some (parseKey k),
+    single := kvN ws (p ++ "single"), double := kvN ws (p ++ "double"), tapTweak := kvN ws (p ++ "tap"),
+    wscript := kvN ws (p ++ "ws"), method := kvN ws (p ++ "method"), outVal := kvN ws (p ++ "val"),
+    outPk := kvN ws (p ++ "pk"), hashType := kvN ws (p ++ "ht"), ctrl := kvN ws (p ++ "cb"),
+    inputIndex := kvN ws (p ++ "ii") }
+
+def slotOf (t : String) : Option Slot :=
+  match t with
+  | "commit" => some .commit | "anchor" => some .anchor | "htlcSweep" => some .htlcSweep
+  | "htlcSecond" => some .htlcSecond | _ => none
+
+def closeOf (s : St) (ctxS : String) : Close :=
+  let me := nodeOf (ctxField ctxS "x")
+  { ct := s.ct, me := me, initiator := (me == 0) == s.initA, csv := s.csv[me]!,
+    leaseExpiry := s.thaw, height := s.sweepHeight }
+
+/-- `desc`: a sign descriptor before (`f.`) and after (`r.`) the contract court's store -/
+def handleDesc (s : St) (ws : List String) : IO St := do
+  let s := { s with evals := s.evals + 1, descCompared := s.descCompared + 1 }
+  let ctxS := kvS ws "ctx"
+  let some slot := slotOf (kvS ws "slot") | mismatch s s!"desc: unknown slot {kvS ws "slot"}"
+  let aux := kvN ws "aux" == 1
+  let f := parseDesc ws "f."
+  let r := parseDesc ws "r."
+  let mut s := s
+  -- (X) the model of what survives serialisation
+  let m := persist aux slot f
+  if m != r then
+    s ← mismatch s s!"persist ctx={ctxS} slot={kvS ws "slot"} aux={aux} impl={repr r} model={repr m}"
+  -- (X) the model of the fresh descriptor
+  let c := closeOf s ctxS
+  let loc := ctxField ctxS "src" == "local"
+  let sp : Spend := match slot with
+    | .commit => if loc then .toLocal else .toRemote
+    | .anchor => .anchor
+    | .htlcSweep => if loc then .secondLevelOut else .htlcTimeout
+    | .htlcSecond => .htlcTimeoutTx
+  let md := c.signDesc sp 1 1 1 1 loc
+  let nz (x : Nat) : Bool := x != 0
+  if md.key != f.key || nz md.single != nz f.single || f.double != 0 || md.method != f.method
+      || md.hashType != f.hashType || nz md.ctrl != nz f.ctrl || nz md.tapTweak != nz f.tapTweak then
+    s ← mismatch s s!"fresh descriptor ctx={ctxS} slot={kvS ws "slot"} impl={repr f} model={repr md}"
+  return s
+
+/-- `signed`: the reloaded descriptor (`r.`) and what the signer received (`s.`) -/
+def handleSigned (s : St) (ws : List String) : IO St := do
+  let s := { s with evals := s.evals + 1, signedCompared := s.signedCompared + 1 }
+  let ctxS := kvS ws "ctx"
+  let wtS := kvS ws "wt"
+  let some wt := WT.ofName wtS | mismatch s s!"signed: witness type {wtS} is not modelled"
+  let r := parseDesc ws "r."
+  let g := parseDesc ws "s."
+  match effective wt.cls r with
+  | none => mismatch s s!"effective ctx={ctxS} wt={wtS}: model refuses the descriptor, impl signed with {repr g}"
+  | some e =>
+    if { e with inputIndex := g.inputIndex } != g then
+      mismatch s s!"effective ctx={ctxS} wt={wtS} impl={repr g} model={repr e}"
+    else return s
+
 def handleSpend (s : St) (ws : List String) : IO St := do
   let s := { s with evals := s.evals + 1 }
   let kind := kvS ws "kind"
@@ -77,29 +149,64 @@ def handleSpend (s : St) (ws : List String) : IO St := do
   let spk := kvS ws "spk"
   let seq := kvN ws "seq"; let lock := kvN ws "lock"; let ver := kvN ws "ver"
   let mut s := s
+  let reload := variant == "reload"
   if variant == "pos" then s := { s with spendsPos := s.spendsPos + 1 }
+  else if reload then s := { s with spendsReload := s.spendsReload + 1 }
   else
     s := { s with spendsNeg := s.spendsNeg + 1 }
     if engineVerdict engine == some false then s := { s with negRejected := s.negRejected + 1 }
   if kind == "funding" then s := { s with commits := s.commits + 1 }
   -- (S)
-  if variant == "pos" then
+  -- spends signed from a resolution that went through the contract court's store
+  if reload then
+    if kvN ws "rec_amt" != kvN ws "act_amt" || kvS ws "pk" != "1" then
+      s ← monitor s "index-amount" s!"ctx={ctxS} kind={kind} after reload rec_idx={kvS ws "rec_idx"} rec_amt={kvS ws "rec_amt"} act_amt={kvS ws "act_amt"} pk={kvS ws "pk"}"
+    if engine != "ok" then
+      s ← monitor s "spend-valid-after-reload" s!"ctx={ctxS} kind={kind} wt={kvS ws "wt"} seq={seq} lock={lock} engine={engine}"
+  let variant := if reload then "pos" else variant
+  if variant == "pos" && !reload then
     if kvN ws "rec_amt" != kvN ws "act_amt" || kvS ws "pk" != "1" then
       s ← monitor s "index-amount" s!"ctx={ctxS} kind={kind} rec_idx={kvS ws "rec_idx"} rec_amt={kvS ws "rec_amt"} act_amt={kvS ws "act_amt"} pk={kvS ws "pk"}"
     if engine != "ok" then
       let cl := if kind == "funding" then "commit-signed" else "spend-valid"
       s ← monitor s cl s!"ctx={ctxS} kind={kind} wt={kvS ws "wt"} seq={seq} lock={lock} engine={engine}"
   -- (X)
-  if (spk == "p2tr" || s.ct.taproot) && kvS ws "ws" == "-" then
-    -- key-path spends (MuSig2 funding output, taproot anchors): real engine only
-    return { s with modelSkipped := s.modelSkipped + 1 }
-  let some ev := engineVerdict engine | return { s with modelSkipped := s.modelSkipped + 1 }
-  let some wit := parseWitness (kvS ws "wit") | mismatch s s!"unparsed witness {kvS ws "wit"}"
-  let some script0 := parseScript (kvS ws "ws") | mismatch s s!"unparsed script {kvS ws "ws"}"
   let some k := spendOf kind | mismatch s s!"unknown kind {kind}"
   let me := nodeOf (ctxField ctxS "x")
   let c : Close := { ct := s.ct, me := me, initiator := (me == 0) == s.initA, csv := s.csv[me]!,
                      leaseExpiry := s.thaw, height := s.sweepHeight }
+  if reload && kvS ws "wt" != "presigned" then
+    let wtS := kvS ws "wt"
+    let offered := (wtS.splitOn "Offered").length > 1
+    s := { s with wtypeCompared := s.wtypeCompared + 1 }
+    match c.wtype k offered with
+    | some wt =>
+      if wt.name != wtS then
+        s ← mismatch s s!"witness type ctx={ctxS} kind={kind} impl={wtS} model={wt.name}"
+    | none => s ← mismatch s s!"witness type ctx={ctxS} kind={kind} impl={wtS} model=none"
+  if (spk == "p2tr" || s.ct.taproot) && kvS ws "ws" == "-" then
+    -- key-path spends (MuSig2 funding output, taproot anchors): symbolic key-path rule
+    let some ev := engineVerdict engine | return { s with modelSkipped := s.modelSkipped + 1 }
+    if k != .funding && k != .anchor then return { s with modelSkipped := s.modelSkipped + 1 }
+    let some wit := parseWitness (kvS ws "wit") | return (← mismatch s s!"unparsed witness {kvS ws "wit"}")
+    let loc := ctxField ctxS "src" == "local"
+    let out : TapOut := if k == .funding then ⟨musigKey, 1⟩ else ⟨c.anchorInternal loc, 1⟩
+    -- `kp`: does the signer's tap tweak lead to the output key (harness: real EC arithmetic)
+    let sigRoot := if kvS ws "kp" == "0" then 2 else 1
+    let cx : Ctx := { version := ver, sequence := seq, lockTime := lock, tapscript := true }
+    let mv := keyPathRun cx out sigRoot wit && kvS ws "pk" == "1"
+    if mv != ev then
+      s ← mismatch s s!"verdict(keypath) ctx={ctxS} kind={kind} var={variant} kp={kvS ws "kp"} wit={kvS ws "wit"} model={mv} engine={engine}"
+    if variant == "pos" then
+      let mw : List Item := [.sig out.internal sigHashDefault .final]
+      if wit != mw then
+        s ← mismatch s s!"witness(keypath) ctx={ctxS} kind={kind} impl={kvS ws "wit"} model={repr mw}"
+      if k == .anchor && (seq != (c.tapCtx k 0).sequence || lock != (c.tapCtx k 0).lockTime) then
+        s ← mismatch s s!"txshape(keypath) ctx={ctxS} kind={kind} impl=seq{seq},lock{lock}"
+    return { s with modelChecked := s.modelChecked + 1, keyPathChecked := s.keyPathChecked + 1 }
+  let some ev := engineVerdict engine | return { s with modelSkipped := s.modelSkipped + 1 }
+  let some wit := parseWitness (kvS ws "wit") | mismatch s s!"unparsed witness {kvS ws "wit"}"
+  let some script0 := parseScript (kvS ws "ws") | mismatch s s!"unparsed script {kvS ws "ws"}"
   let cltv := findCltv script0
   let ph := findPayHash script0
   let expiry := if k == .htlcTimeoutTx then lock else cltv
@@ -253,6 +360,7 @@ def step (s : St) (line : String) : IO St := do
     let src := kvS rest "src"
     let tag := kvS rest "tag"
     let s := if tag == "reload" then { s with probesReload := s.probesReload + 1 } else s
+    let s := if tag == "court" then { s with reloadProbes := s.reloadProbes + 1 } else s
     let s := if src == "local" then { s with probesLocal := s.probesLocal + 1 }
              else if src == "pending" then { s with probesPending := s.probesPending + 1 }
              else { s with probesRemote := s.probesRemote + 1 }
@@ -275,6 +383,12 @@ def step (s : St) (line : String) : IO St := do
     if kvNat? rest "dead" == some 1 then mismatch s "history aborted: a peer rejected an honest message"
     else return s
   | "value" :: rest => handleValue s rest
+  | "desc" :: rest => handleDesc s rest
+  | "signed" :: rest => handleSigned s rest
+  | "persist" :: rest =>
+    let s := { s with evals := s.evals + 1, persistOps := s.persistOps + 1 }
+    if resOf ws == "ok" then return s
+    else monitor s "reload-roundtrip" s!"ctx={kvS rest "ctx"} what={kvS rest "what"} idx={kvS rest "idx"} result={resOf ws}"
   | "spend" :: rest => handleSpend s ("spend" :: rest)
   | [] => return s
   | _ => mismatch s s!"unparsed line: {line.take 80}"
@@ -287,7 +401,13 @@ def main : IO Unit := do
   IO.println s!"STAT lines={s.lines}"
   IO.println s!"STAT cases={s.cases}"
   IO.println s!"STAT evaluations={s.evals}"
-  IO.println s!"STAT nontrivial={s.spendsPos + s.spendsNeg + s.values}"
+  IO.println s!"STAT nontrivial={s.spendsPos + s.spendsNeg + s.spendsReload + s.values + s.descCompared}"
+  IO.println s!"STAT court_probes={s.reloadProbes}"
+  IO.println s!"STAT spends_after_reload_executed={s.spendsReload}"
+  IO.println s!"STAT store_operations={s.persistOps}"
+  IO.println s!"STAT descriptors_compared_with_persist_model={s.descCompared}"
+  IO.println s!"STAT signer_requests_compared_with_effective_model={s.signedCompared}"
+  IO.println s!"STAT resolver_witness_types_compared={s.wtypeCompared}"
   IO.println s!"STAT probes_local_force_close={s.probesLocal}"
   IO.println s!"STAT probes_remote_current={s.probesRemote}"
   IO.println s!"STAT probes_remote_pending={s.probesPending}"
@@ -303,6 +423,7 @@ def main : IO Unit := do
   IO.println s!"STAT model_verdicts_compared={s.modelChecked}"
   IO.println s!"STAT model_structure_compared={s.structChecked}"
   IO.println s!"STAT model_skipped_taproot_or_unsigned={s.modelSkipped}"
+  IO.println s!"STAT key_path_spends_compared={s.keyPathChecked}"
   IO.println s!"STAT templates_compared={s.templates}"
   IO.println s!"STAT mismatches={s.mismatches}"
   IO.println s!"STAT monitor_failures={s.monitorFails}"
